@@ -315,7 +315,7 @@ def fams_c16(tier, seed):
     ]
 
 
-PARK_MACROS = {"send": 6, "recv": 6, "sendt": 2, "recvt": 2, "try": 2, "tryr": 2, "asend2": 2, "arecv2": 2, "asend1": 1, "arecv1": 1,
+PARK_MACROS = {"send": 6, "recv": 6, "sendt": 2, "recvt": 2, "try": 2, "tryr": 2, "tryrt": 2, "tryrrt": 1, "asend2": 2, "arecv2": 2, "asend1": 1, "arecv1": 1,
                "stream3": 1, "close": 1, "drops": 1, "dropr": 1, "drain": 1}
 
 
@@ -469,9 +469,12 @@ PROPS = {
     ),
     "C06": dict(extra_c0607("C06"),
                 families=lambda tier, seed: [Family("pending5", "exh", "PQyvdc", "0,1", depth=5, configs=("w:s", "l:a")),
-                                             Family("refill5", "exh", "PSRUvd", "1,2", depth=5, configs=("w:s", "l:a"))] if tier == "quick" else
+                                             Family("refill5", "exh", "PSRUvd", "1,2", depth=5, configs=("w:s", "l:a")),
+                                             # a waiting receiver / sender must be served (and woken) by every try variant, the realtime ones included, at every capacity
+                                             Family("rt-waiters", "exh", "PQYVd", "1,2,u", depth=4, configs=("w:s", "l:a"))] if tier == "quick" else
                                             [Family("pending7", "exh", "PQyvdc", "0,1,2", depth=7, configs=("w:s", "l:a")),
-                                             Family("refill7", "exh", "PSRUvd", "1,2", depth=7, configs=("w:s", "l:a", "b:a"))],
+                                             Family("refill7", "exh", "PSRUvd", "1,2", depth=7, configs=("w:s", "l:a", "b:a")),
+                                             Family("rt-waiters", "exh", "PQYVd", "1,2,u", depth=5, configs=("w:s", "l:a"))],
                 conc=lambda tier, seed: conc_prof("progress", PARK_MACROS, ["stuck", "wake", "orderings", "proto"], oracles=("ledger", "lifetime", "timeout"),
                                qn=400, tn=12000, strategies=STRATS + ("after:park:1", "after:cas:2", "after:unpark:1"))(tier, seed) +
                                         conc_prof("refill", {"send": 6, "recvt": 4, "recv": 2, "tryr": 2, "asend1": 2, "sendt": 1, "drain": 1}, ["stuck", "wake"],
